@@ -23,8 +23,13 @@ func protoRun(p *Prog, fn *ssa.Function) (*sched, []protoOutcome) {
 }
 
 func protoRunMode(p *Prog, fn *ssa.Function, structPoints bool) (*sched, []protoOutcome) {
+	return protoRunFull(p, fn, structPoints, nil, nil)
+}
+
+// protoRunFull: contracts != nil selects the glue mode; pre are initial facts
+func protoRunFull(p *Prog, fn *ssa.Function, structPoints bool, contracts map[string]*xContract, pre []pFact, alias ...map[int]int) (*sched, []protoOutcome) {
 	e := newSched(p, map[string]*tabSem{})
-	d := &protoDom{e: e, globals: map[string]func(st *sState) sVal{}, structPoints: structPoints}
+	d := &protoDom{e: e, globals: map[string]func(st *sState) sVal{}, structPoints: structPoints, glue: contracts != nil, contracts: contracts, gOK: map[string]int{}, gBad: map[string][]string{}}
 	e.proto = d
 	st := newSState()
 	st.gcells = map[string]int{}
@@ -36,6 +41,11 @@ func protoRunMode(p *Prog, fn *ssa.Function, structPoints bool) (*sched, []proto
 		}
 	}
 	skipInit := false
+	if strings.HasSuffix(fn.Pkg.Pkg.Path(), "/sm4") {
+		// the initialiser of sm4 probes CPU features and fills tables; the only variable the glue uses is the error value
+		skipInit = true
+		d.globals["errOpen"] = cellOf(func(st *sState) sVal { return pErr{true} })
+	}
 	if strings.HasSuffix(fn.Pkg.Pkg.Path(), "/sm2/internal") {
 		// the initialiser of sm2/internal builds the curve and the tables; the two element constants the decoders use are
 		// supplied here (sm2B is checked against the curve literal by C15 FORMULA-CONSTANT)
@@ -56,13 +66,34 @@ func protoRunMode(p *Prog, fn *ssa.Function, structPoints bool) (*sched, []proto
 		e.restarts = nil
 	}
 	var args []sVal
-	for _, prm := range fn.Params {
+	for pi, prm := range fn.Params {
+		if len(alias) > 0 {
+			if j, ok := alias[0][pi]; ok && j < len(args) {
+				args = append(args, args[j]) // this parameter is the same object as an earlier one
+				continue
+			}
+		}
 		switch t := prm.Type().Underlying().(type) {
 		case *types.Slice:
+			if d.glue {
+				esz := elemSize(t.Elem())
+				nm := pParam(prm.Name())
+				id := d.newGObj(st, prm.Name(), pMul(pC(int64(esz)), pOp("cap", nm)), false)
+				args = append(args, gSlice{id, pC(0), pOp("len", nm), pOp("cap", nm), esz})
+				continue
+			}
 			args = append(args, pBytes{pParam(prm.Name())})
 		case *types.Interface:
 			args = append(args, pReader{})
+		case *types.Basic:
+			args = append(args, pInt{pParam(prm.Name())})
 		case *types.Pointer:
+			if d.glue {
+				if _, isStruct := t.Elem().Underlying().(*types.Struct); isStruct {
+					args = append(args, gRecv{prm.Name()})
+					continue
+				}
+			}
 			switch k := allocKind(prm.Type()); {
 			case k == "elem" || k == "scalar" || k == "big":
 				args = append(args, d.newObj(st, k, pParam(prm.Name()+"0")))
@@ -87,6 +118,8 @@ func protoRunMode(p *Prog, fn *ssa.Function, structPoints bool) (*sched, []proto
 		}
 	}
 	st.draws, st.readErrs, st.drawLens = 0, 0, nil
+	st.pfacts = append(st.pfacts, pre...)
+	e.rootArgs = args
 	rets := e.runFunc(fn, st, args)
 	var out []protoOutcome
 	for _, r := range rets {
@@ -126,6 +159,12 @@ func (d *protoDom) show(st *sState, v sVal) string {
 			op = negOp[op]
 		}
 		return x.a.String() + " " + op.String() + " " + x.b.String() + ifs(x.raw != "", " ["+x.raw+"]")
+	case gSlice:
+		nm := "?"
+		if h := d.gobj(st, x.obj); h != nil {
+			nm = h.name
+		}
+		return fmt.Sprintf("slice(%s+%s, len %s, cap %s)", nm, x.off, x.ln, x.cp)
 	case pObj:
 		if h := d.obj(st, v); h != nil && h.t != nil {
 			return h.kind + ":" + h.t.String()
@@ -174,4 +213,52 @@ func debugProto(args []string) {
 		}
 	}
 	_ = token.ADD
+}
+
+func debugGlue(args []string) {
+	repo := "/repo"
+	if v := osGetenv("SMGO_REPO"); v != "" {
+		repo = v
+	}
+	arch := "amd64"
+	if v := osGetenv("SMGO_ARCH"); v != "" {
+		arch = v
+	}
+	p, err := LoadRepo(repo, arch)
+	if err != nil {
+		fmt.Println(err)
+		return
+	}
+	for _, name := range args {
+		fn := p.Func(name)
+		if fn == nil {
+			fmt.Println("no such function", name)
+			continue
+		}
+		e, outs := protoRunFull(p, fn, false, asmContracts(arch), nil)
+		fmt.Printf("== %s [%s]: %d outcomes, %d steps\n", name, arch, len(outs), e.steps)
+		for _, x := range e.errs {
+			fmt.Println("   ERR", x)
+		}
+		for _, x := range e.panics {
+			fmt.Println("   PANIC", x)
+		}
+		for rule, bad := range e.proto.gBad {
+			for _, b := range bad {
+				fmt.Println("   OBLIGATION", rule, b)
+			}
+		}
+		fmt.Println("   obligations proved:", e.proto.gOK)
+		for i, o := range outs {
+			var fs []string
+			for _, f := range o.st.pfacts {
+				fs = append(fs, f.String())
+			}
+			var es []string
+			for _, ef := range o.st.geff {
+				es = append(es, ef.kind+":"+ef.what)
+			}
+			fmt.Printf(" #%d ret=[%s]\n     facts: %s\n     effects: %s\n", i, strings.Join(o.terms, " | "), strings.Join(fs, " ; "), strings.Join(es, ","))
+		}
+	}
 }
